@@ -1147,6 +1147,42 @@ def r1216(ctx, m, cname, f):
     return n_calls
 
 
+def r1217(ctx, m, cname, f):
+    """Frames from sibling on-the-fly readers are carried over between polls. When one frame is
+    assembled from several files (CP2K: positions and velocities), each reader advances on its own;
+    a poll can find more complete frames in one file than in the other. The surplus must stay
+    queued for the next poll: every reader result is *added* to a buffer that lives outside the
+    polling loop (`buf += reader.read_and_process_content()`), never bound afresh per poll."""
+    rid = "R-12.17"
+    fl = flow_of(f)
+    cfg = fl.cfg
+    reads = [c for c in walk_local(f) if isinstance(c, ast.Call) and isinstance(c.func, ast.Attribute) and c.func.attr == "read_and_process_content"]
+    readers_ = {ast.unparse(c.func.value) for c in reads}
+    if len(readers_) < 2:
+        return 0
+    n = 0
+    for c in reads:
+        n += 1
+        st = enclosing_stmt(c)
+        loops = [l for l in loops_of(c) if isinstance(l, ast.While)]
+        buf = None
+        if isinstance(st, ast.AugAssign) and isinstance(st.op, ast.Add) and isinstance(st.target, ast.Name) and st.value is c:
+            buf = st.target.id
+        elif isinstance(st, ast.Expr) and isinstance(st.value, ast.Call) and isinstance(st.value.func, ast.Attribute) and st.value.func.attr == "extend" and isinstance(st.value.func.value, ast.Name) and st.value.args and st.value.args[0] is c:
+            buf = st.value.func.value.id
+        outside = False
+        if buf is not None and loops:
+            outer = loops[-1]
+            outside = any(d.path == buf and d.kind == "assign" and d.stmt is not None and not any(d.stmt is x for x in ast.walk(outer)) for d in fl.defs)
+            rebound_inside = any(d.path == buf and d.kind == "assign" and d.stmt is not None and any(d.stmt is x for x in ast.walk(outer)) for d in fl.defs)
+            outside = outside and not rebound_inside
+        if buf is not None and outside:
+            ctx.ok(rid, c, f"{cname}: frames from `{ast.unparse(c.func.value)}` are added to `{buf}`, which persists across polls: a surplus frame waits for its partner")
+        else:
+            ctx.bad(rid, c, f"{cname}._propagate_from assembles each frame from {len(readers_)} on-the-fly readers but binds the result of `{short(c, 50)}` afresh at every poll: when a poll finds more complete frames in one file than in the other, the surplus frame is dropped, the path skips a time step and every later frame pairs the positions of step t+1 with the velocities of step t", construct=f"{cname}: reader result not carried over between polls: {short(st, 60)}")
+    return n
+
+
 def r1214(ctx):
     """Step budget: every engine lets the MD program / integrator loop run exactly
     path.maxlen * subcycles steps, so that a trajectory which reaches no interface delivers
@@ -1229,6 +1265,7 @@ def run(ctx):
     ctx.rule("R-12.12", "frame indices of configuration references are never tested by truthiness (index 0 is a frame)", floor=5)
     ctx.rule("R-12.11", "no `for` variable of the engine modules is read after its loop has ended", floor=40)
     ctx.rule("R-12.10", "positional role agreement in the propagation functions: unpacked names / positional arguments sit at the position where the callee returns / expects that name", floor=15)
+    ctx.rule("R-12.17", "frames assembled from several on-the-fly readers: every reader result is added to a buffer that persists across polls (a surplus frame waits for its partner)", floor=2)
     ctx.rule("R-12.16", "calculate_order's all-or-nothing contract: a per-frame call hands over xyz, vel and box that are all present (a value the function treats as optional would make the method re-read the starting configuration)", floor=6)
     engs = engines(ctx.tree)
     armed = [e for e in engs if e[0].rel in ENGINE_FILES]
@@ -1247,6 +1284,7 @@ def run(ctx):
         r126(ctx, m, cname, f, info)
         ctx.attempt(r129, ctx, m, cname, f)
         ctx.attempt(r1216, ctx, m, cname, f)
+        ctx.attempt(r1217, ctx, m, cname, f)
     ctx.attempt(r124, ctx)
     ctx.attempt(r124_rc_tests, ctx)
     ctx.attempt(r1214, ctx)
@@ -1269,6 +1307,8 @@ def run(ctx):
 
 
 VARIANTS = [
+    B("c12-cp2k-frames-rebound-per-poll", CP2K, "                    pos_traj += pos_reader.read_and_process_content()\n                    vel_traj += vel_reader.read_and_process_content()", "                    pos_traj = pos_reader.read_and_process_content()\n                    vel_traj = vel_reader.read_and_process_content()", "R-12.17", control=True, why="seeded C12_g"),
+    K("c12-keep-cp2k-frames-extend", CP2K, "                    pos_traj += pos_reader.read_and_process_content()\n                    vel_traj += vel_reader.read_and_process_content()", "                    pos_traj.extend(pos_reader.read_and_process_content())\n                    vel_traj.extend(vel_reader.read_and_process_content())"),
     B("c12-turtle-order-from-optional-box", TURTLE, "                order = self.calculate_order(\n                    system,\n                    xyz=tmd_system.particles.pos,\n                    vel=tmd_system.particles.vel,\n                    box=tmd_system.box.length,\n                )", "                order = self.calculate_order(\n                    system, xyz=pos, vel=vel, box=box\n                )", "R-12.16", control=True, why="seeded C12_f"),
     K("c12-keep-turtle-order-from-written-arrays", TURTLE, "                order = self.calculate_order(\n                    system,\n                    xyz=tmd_system.particles.pos,\n                    vel=tmd_system.particles.vel,\n                    box=tmd_system.box.length,\n                )", "                order = self.calculate_order(\n                    system, xyz=pos, vel=vel, box=tmd_system.box.length\n                )", why="arrays refreshed in place in this iteration are this frame's data"),
     B("c12-gromacs-reverse-writes-template", GROMACS, "        write_gromos96_file(outfile, txt, xyz, -1 * vel)", "        write_gromos96_file(outfile, self.top, xyz, -1 * vel)", "R-12.15", why="seeded C12_e"),
